@@ -65,7 +65,10 @@ Definition wf_node (D : doc) (n : nat) : bool :=
 Definition wf_doc (D : doc) : bool := forallb (wf_node D) (nodes D).
 
 (** * node tests and predicates *)
-Inductive ntest := TName (n : nat) | TWild | TNode | TText | TComment | TPI | TPIName (n : nat).
+(* an expanded name is the pair (namespace id, local-name id) coded as 16 * namespace + local, namespace 0
+   being "no namespace"; TName is prefix:local or local, TNsWild is prefix:* *)
+Definition ns_of (name : nat) : nat := name / 16.
+Inductive ntest := TName (n : nat) | TNsWild (ns : nat) | TWild | TNode | TText | TComment | TPI | TPIName (n : nat).
 
 (* a predicate evaluated at (node, context position, context size): a boolean or a number *)
 Inductive pval := PB (b : bool) | PN (k : nat).
@@ -88,6 +91,7 @@ Definition apply_preds (ps : list predi) (l : list nat) : list nat := fold_left 
 Definition child_test (t : ntest) (k : kind) : bool :=
   match t, k with
   | TName n, KElem m => n =? m
+  | TNsWild s, KElem m => ns_of m =? s
   | TWild, KElem _ => true
   | TNode, _ => true                                   (* testNode: any node type *)
   | TText, KText => true
@@ -102,6 +106,7 @@ Definition child_test (t : ntest) (k : kind) : bool :=
 Definition attr_test (t : ntest) (k : kind) : bool :=
   match t, k with
   | TName n, KAttr m => n =? m
+  | TNsWild s, KAttr m => ns_of m =? s
   | TWild, KAttr _ => true
   | TNode, KAttr _ => true
   | _, _ => false
